@@ -110,7 +110,7 @@ def add_path_to_tree(
         node_path = tree_sep.join(branch[: idx + 1])
         if not duplicate_name_allowed:
             node = search.find_name(root_node, node_name)
-            if node and not node.path_name.endswith(node_path):
+            if node and node.path_name != f"{tree_sep}{node_path}":
                 raise exceptions.DuplicatedNodeError(
                     f"Node {node_name} already exists, try setting `duplicate_name_allowed` to True "
                     f"to allow `Node` with same node name"
